@@ -48,6 +48,7 @@ class Check:
         self.stats = {}
         self.assumptions = []
         self.explanation = ""
+        self.config = None
         self.undecided = []
         try:
             self.seed = int(os.environ.get("VERIF_SEED", "0"))
@@ -56,6 +57,8 @@ class Check:
 
     # ---- obligations -----------------------------------------------------------------
     def ob(self, rule, text):
+        if self.config:
+            text = "[%s] %s" % (self.config, text)
         o = Obligation(rule, text)
         self.obligations.append(o)
         return o
@@ -73,6 +76,8 @@ class Check:
         """Record a violation of obligation o. key = 'rule | function | detail'."""
         o.status = "violated"
         key = "%s | %s | %s" % (o.rule, key_fn, key_detail)
+        if self.config:
+            message = "[configuration %s] %s" % (self.config, message)
         o.detail = message
         if site:
             o.sites.append(site)
